@@ -24,12 +24,14 @@ Failed(o) ==
   LET v == o.vec  r == Rows(o)
       rows == TLCEval([k \in 1..Len(v.qs) |-> ExpectRow(v, k)]) IN
     (IF o.obs.err = "" THEN {} ELSE {"unexpected-error"})
+    \cup (IF CliBad(o.obs) THEN {"cli-wiring"} ELSE {})
     \cup (IF o.obs.header = "query,SNPs" THEN {} ELSE {"header"})
     \cup (IF Len(r) = Len(v.qs) /\ \A k \in 1..Len(r) : r[k].qi = k THEN {} ELSE {"row-per-query-in-order"})
     \cup (IF Len(r) = Len(v.qs) /\ \A k \in 1..Len(r) : r[k].snps = rows[k] THEN {} ELSE {"snp-row"})
     \cup (IF v.thr < 0 THEN {}
           ELSE (IF o.obs.aerr = "" /\ o.obs.aheader = "SNP,frequency" THEN {} ELSE {"agg-error"})
-               \cup (IF AggOK(rows, Len(v.qs), v.thr, o.obs.agg) THEN {} ELSE {"aggregate"}))
+               \cup (IF AggOK(rows, Len(v.qs), v.thr, o.obs.agg) THEN {} ELSE {"aggregate"})
+               \cup (IF CliBadAt(o.obs, "agg_") THEN {"agg-cli-wiring"} ELSE {}))
 
 Init == l = 1 /\ nbad = 0
 Next == /\ l <= Len(Trace)
